@@ -16,7 +16,7 @@ LEVEL = "exploration"
 TECHNIQUE = "runtime monitor: global timeline (handlers, notifications, observations) of real runs; sim statistics vs ordinary statistics fed the post-warm-up observations (bit-exact) and exact rational time average; payload-vs-getter subscriber"
 RULE = ("seeded model programs (float/int/Duration clocks, warm-up in {0, inside, = end}, ties with priorities 1-10 at "
         "the warm-up instant) with SimCounter/SimTally/SimWeightedTally/SimPersistent created in construct_model, fed "
-        "by direct register and by data events from a producer, optionally interrupted by forced pauses; non-trivial "
+        "by direct register and by data events from a producer, optionally interrupted by forced pauses; a sibling model with the same statistic keys is initialised before the key look-ups are repeated; non-trivial "
         "= >=1 observation before and >=2 after the warm-up notification for some statistic and the warm-up strictly "
         "inside the run; distinct = canonical program hash")
 ASSUMPTIONS = ["an observation made at exactly the warm-up time by an event that ran before the warm-up notification (priority 10, "
@@ -144,6 +144,22 @@ def run_case(case, ctx):
             except Exception as e:
                 ctx.viol(f"output-statistic-not-retrievable:{type(e).__name__}", {**where, "key": key})
                 return
+        # ... also after another model object (same keys) was built and initialised on its own simulator in this process
+        h2 = Harness(prog, "other")
+        try:
+            if h2.cmd("initialize") == "ok":
+                ctx.count("sibling_models_initialised")
+                for key, st in created.items():
+                    try:
+                        mine, other = h.model.get_output_statistic(key), h2.model.get_output_statistic(key)
+                    except Exception as e:
+                        ctx.viol(f"output-statistic-not-retrievable:{type(e).__name__}", {**where, "key": key, "after": "a sibling model was initialised"})
+                        return
+                    if mine is not st or other is not h2.stats.get(key) or other is st:
+                        ctx.viol("output-statistic-identity", {**where, "key": key, "after": "a sibling model was initialised"})
+                        return
+        finally:
+            h2.cleanup()
         # ---- (1)/(3) value comparison
         nontrivial = False
         for sp in prog["stats"]:
